@@ -1,10 +1,178 @@
 import Driver.JsonUtil
+import DSV.Mercury.RefCodec
+import DSV.Mercury.History
 open Lean
 namespace Driver
-open DSV
+open DSV DSV.Mercury
 
+namespace Merc
+
+def jOptInt : Option Int → Json
+  | none => .null
+  | some v => jInt v
+
+def asVals (j : Json) : P (List (Int × Bool)) := do
+  (← getArr j "vals").mapM fun e => do pure ((← getInt e "v"), (← getBool e "ok"))
+
+def asNatVals (j : Json) : P (List (Nat × Bool)) := do
+  (← getArr j "vals").mapM fun e => do pure ((← getNat e "v"), (← getBool e "ok"))
+
+/-- an int192 proto field travels as the raw bytes -/
+def getI192 (j : Json) (k : String) : P (Option Int) := do
+  pure (decodeInt192 (← getBytes j k))
+
+def asBlock (j : Json) : P V1.Block := do
+  pure ⟨← getInt j "num", ← getBytes j "hash", ← getNat j "ts"⟩
+
+def asCfg (j : Json) : P Cfg := do
+  pure ⟨← getNat j "f", ← getInt j "min", ← getInt j "max", ← getNat j "window"⟩
+
+def asMode (j : Json) : P RefCodec.Mode := do
+  pure { maxLen := ← getNat j "maxLen", pad := ← getNat j "pad",
+         empty := (fldD j "empty") == Json.bool true, fail := (fldD j "fail") == Json.bool true }
+
+def asPrev (j : Json) : P (Option Bytes) :=
+  match j with
+  | .null => pure none
+  | _ => some <$> asBytes j
+
+def isBad (j : Json) : Bool := j.isNull || (fldD j "bad") == Json.bool true
+
+def asObs1 (j : Json) : P (Option V1.Obs) :=
+  if isBad j then pure none else do
+  pure (some { ts := ← getNat j "ts", bp := ← getI192 j "bp", bid := ← getI192 j "bid", ask := ← getI192 j "ask",
+               pricesValid := ← getBool j "pricesValid", curNum := ← getInt j "curNum",
+               curHash := ← getBytes j "curHash", curTs := ← getNat j "curTs", curValid := ← getBool j "curValid",
+               mfbn := ← getInt j "mfbn", mfbnValid := ← getBool j "mfbnValid",
+               latestBlocks := ← (← asArr (fldD j "blocks")).mapM asBlock })
+
+def asObs2 (j : Json) : P (Option V2.Obs) :=
+  if isBad j then pure none else do
+  pure (some { ts := ← getNat j "ts", bp := ← getI192 j "bp", pricesValid := ← getBool j "pricesValid",
+               mft := ← getInt j "mft", mftValid := ← getBool j "mftValid",
+               linkFee := ← getI192 j "link", linkFeeValid := ← getBool j "linkValid",
+               nativeFee := ← getI192 j "native", nativeFeeValid := ← getBool j "nativeValid" })
+
+def asObs3 (j : Json) : P (Option V3.Obs) :=
+  if isBad j then pure none else do
+  pure (some { ts := ← getNat j "ts", bp := ← getI192 j "bp", bid := ← getI192 j "bid", ask := ← getI192 j "ask",
+               pricesValid := ← getBool j "pricesValid",
+               mft := ← getInt j "mft", mftValid := ← getBool j "mftValid",
+               linkFee := ← getI192 j "link", linkFeeValid := ← getBool j "linkValid",
+               nativeFee := ← getI192 j "native", nativeFeeValid := ← getBool j "nativeValid" })
+
+def asObs4 (j : Json) : P (Option V4.Obs) :=
+  if isBad j then pure none else do
+  pure (some { ts := ← getNat j "ts", bp := ← getI192 j "bp", pricesValid := ← getBool j "pricesValid",
+               mft := ← getInt j "mft", mftValid := ← getBool j "mftValid",
+               linkFee := ← getI192 j "link", linkFeeValid := ← getBool j "linkValid",
+               nativeFee := ← getI192 j "native", nativeFeeValid := ← getBool j "nativeValid",
+               marketStatus := ← getNat j "ms", marketStatusValid := ← getBool j "msValid" })
+
+def jRF1 (rf : V1.RF) : Json :=
+  Json.mkObj [("ts", jNat rf.ts), ("bp", jOptInt rf.bp), ("bid", jOptInt rf.bid), ("ask", jOptInt rf.ask),
+    ("curNum", jInt rf.curNum), ("curHash", jBytes rf.curHash), ("validFrom", jInt rf.validFrom),
+    ("curTs", jNat rf.curTs)]
+def jRF2 (rf : V2.RF) : Json :=
+  Json.mkObj [("validFrom", jNat rf.validFrom), ("ts", jNat rf.ts), ("nativeFee", jInt rf.nativeFee),
+    ("linkFee", jInt rf.linkFee), ("expiresAt", jNat rf.expiresAt), ("bp", jOptInt rf.bp)]
+def jRF3 (rf : V3.RF) : Json :=
+  Json.mkObj [("validFrom", jNat rf.validFrom), ("ts", jNat rf.ts), ("nativeFee", jInt rf.nativeFee),
+    ("linkFee", jInt rf.linkFee), ("expiresAt", jNat rf.expiresAt), ("bp", jOptInt rf.bp),
+    ("bid", jOptInt rf.bid), ("ask", jOptInt rf.ask)]
+def jRF4 (rf : V4.RF) : Json :=
+  Json.mkObj [("validFrom", jNat rf.validFrom), ("ts", jNat rf.ts), ("nativeFee", jInt rf.nativeFee),
+    ("linkFee", jInt rf.linkFee), ("expiresAt", jNat rf.expiresAt), ("bp", jOptInt rf.bp),
+    ("ms", jNat rf.marketStatus)]
+
+def jOut {RF} (jrf : RF → Json) : Option (RF × Bytes) → Json
+  | none => Json.mkObj [("should", .bool false), ("report", .null), ("rf", .null)]
+  | some (rf, b) => Json.mkObj [("should", .bool true), ("report", jBytes b), ("rf", jrf rf)]
+
+/-- `NewMercuryPlugin` then `Report` -/
+def plugin {RF} (cfg : Cfg) (run : GoRes (Option (RF × Bytes))) : GoRes (Option (RF × Bytes)) :=
+  if cfg.valid then run else .err "config"
+
+/-- one `Report` call of version `v` with the reference codec -/
+def stepV (v : Nat) (cfg : Cfg) (m : RefCodec.Mode) (prev : Option Bytes) (aos : List Json) : P Json := do
+  match v with
+  | 1 => do
+    let obs ← aos.mapM asObs1
+    pure (jRes (jOut jRF1) (plugin cfg (V1.report cfg (RefCodec.codec1 m) {} prev obs)))
+  | 2 => do
+    let obs ← aos.mapM asObs2
+    pure (jRes (jOut jRF2) (plugin cfg (V2.report cfg (RefCodec.codec2 m) id prev obs)))
+  | 3 => do
+    let obs ← aos.mapM asObs3
+    pure (jRes (jOut jRF3) (plugin cfg (V3.report cfg (RefCodec.codec3 m) id prev obs)))
+  | 4 => do
+    let obs ← aos.mapM asObs4
+    pure (jRes (jOut jRF4) (plugin cfg (V4.report cfg (RefCodec.codec4 m) {} prev obs)))
+  | _ => throw "bad mercury version"
+
+def reportOp (v : Nat) (j : Json) : P Json := do
+  let cfg ← fld j "cfg" >>= asCfg
+  let m ← fld j "codec" >>= asMode
+  let prev ← asPrev (fldD j "prev")
+  stepV v cfg m prev (← getArr j "aos")
+
+/-- threaded history; the JSON results are produced round by round with the same threading rule
+    as `runHistory` (emitted report becomes the next `previousReport`) -/
+def historyOp (j : Json) : P Json := do
+  let v ← getNat j "v"
+  let cfg ← fld j "cfg" >>= asCfg
+  let m ← fld j "codec" >>= asMode
+  let prev0 ← asPrev (fldD j "prev")
+  let rounds ← getArr j "rounds"
+  let run {RF In} (dec : Json → P In) (rep : Option Bytes → List In → GoRes (Option (RF × Bytes)))
+      (jrf : RF → Json) : P Json := do
+    let ins ← rounds.mapM fun r => do (← asArr r).mapM dec
+    let res := runHistory (fun prev i => plugin cfg (rep prev i)) prev0 ins
+    pure (Json.mkObj [("ok", .arr (res.map (jRes (jOut jrf))).toArray)])
+  match v with
+  | 1 => run asObs1 (fun p i => V1.report cfg (RefCodec.codec1 m) {} p i) jRF1
+  | 2 => run asObs2 (fun p i => V2.report cfg (RefCodec.codec2 m) id p i) jRF2
+  | 3 => run asObs3 (fun p i => V3.report cfg (RefCodec.codec3 m) id p i) jRF3
+  | 4 => run asObs4 (fun p i => V4.report cfg (RefCodec.codec4 m) {} p i) jRF4
+  | _ => throw "bad mercury version"
+
+def asPAO1 (j : Json) : P V1.PAO := do
+  let blocks ← (← asArr (fldD j "blocks")).mapM asBlock
+  let cur := fldD j "cur"
+  if cur.isNull then pure { ts := 0, latestBlocks := blocks }
+  else do
+    let b ← asBlock cur
+    pure { ts := 0, latestBlocks := blocks, curNum := b.num, curHash := b.hash, curTs := b.ts, curValid := true }
+
+end Merc
+
+open Merc in
 /-- op handlers of this area; return `none` for op names that are not handled here -/
 def handleMercury (op : String) (j : Json) : Option (P Json) :=
+  let med (k : List (Int × Bool) → Nat → GoRes Int) : Option (P Json) := some (do
+    pure (jRes jInt (k (← asVals j) (← getNat j "f"))))
   match op with
+  | "mercury.consensus.timestamp" => some (do
+      let ts ← (← getArr j "ts").mapM asNat
+      pure (jRes jNat (consensusTimestamp ts)))
+  | "mercury.consensus.benchmark" => med consensusBenchmarkPrice
+  | "mercury.consensus.bid" => med consensusBid
+  | "mercury.consensus.ask" => med consensusAsk
+  | "mercury.consensus.linkfee" => med consensusLinkFee
+  | "mercury.consensus.nativefee" => med consensusNativeFee
+  | "mercury.consensus.maxfinalizedts" => med (consensusMaxFinalizedTimestamp id)
+  | "mercury.consensus.v1.maxfinalizedblocknum" => med (V1.consensusMaxFinalizedBlockNum id)
+  | "mercury.consensus.v4.marketstatus" => some (do
+      pure (jRes jNat (V4.consensusMarketStatus id (← asNatVals j) (← getNat j "f"))))
+  | "mercury.consensus.v1.latestblock" => some (do
+      let paos ← (← getArr j "paos").mapM asPAO1
+      let r := V1.consensusLatestBlock {} paos (← getNat j "f")
+      pure (jRes (fun (x : Bytes × Int × Nat) =>
+        Json.mkObj [("hash", jBytes x.1), ("num", jInt x.2.1), ("ts", jNat x.2.2)]) r))
+  | "mercury.v1.report" => some (reportOp 1 j)
+  | "mercury.v2.report" => some (reportOp 2 j)
+  | "mercury.v3.report" => some (reportOp 3 j)
+  | "mercury.v4.report" => some (reportOp 4 j)
+  | "mercury.history" => some (historyOp j)
   | _ => none
 end Driver
